@@ -61,10 +61,10 @@ def run(tier: str) -> int:
         # run 1 (alone: the box is oversubscribed): the replayer's scenario family + the negative controls
         scs, r1 = ac.export_and_controls(2, "FamExportQuickC" if q else "FamExportC")
         ck.note("negative_controls", {"caller": "NoStartAfterDisposeReturned", "early": "NotEarly", "lose": "NoLostAction",
-                                      "nowake": "NoLostAction", "inline": "OnLoopThread",
+                                      "nowake": "NoLostAction", "inline": "OnLoopThread", "impatient": "NoStartAfterDisposeReturned",
                                       "verdict": "each refuted by its invariant (postcondition ControlsRefuted)"})
         designs = [("design: all interleavings, the 1-item scenarios", True,
-                    tp.submit(ac.design_run, 2, "FamOneQuick" if q else "FamOne", ("own",), ("F",), 3, True))]
+                    tp.submit(ac.design_run, 2, "FamOneQuick" if q else "FamOne", ("own",), ("F",), 3, True, busysets="BusyExport"))]
         if tier != "quick":      # (quick: the 2-item family FamTwoQuick - 6 k states - was dropped for wall-clock reasons)
             designs.append(("design: all interleavings, 2 items, both schedulers", False,
                             tp.submit(ac.design_run, 2, "FamTwo", ("own",), ("F",), 4, False, 3000)))
@@ -82,6 +82,10 @@ def run(tier: str) -> int:
         ck.note("scenario_family_2_items", len(scs2))
         ck.note("scenarios_2_items_sampled", len(pick2))
         jobs = [(sc, P["bound"], P["cap1"], P["rnd1"], ck.seed, "rel", False) for sc in scs1]
+        # the loop kept busy by an earlier callback while the item queued behind it is disposed: also through schedule_relative(0)
+        kept_busy = [sc for sc in scs1 if sc.get("busy")]
+        ck.note("scenario_family_1_item_loop_kept_busy", len(kept_busy))
+        jobs += [(sc, P["bound"], P["cap1"], P["rnd1"], ck.seed + 5, "rel0", False) for sc in kept_busy if sc["scn"][0]["d"] == 0]
         jobs += [(sc, P["bound"], P["cap2"], P["rnd2"], ck.seed, "rel", False) for sc in pick2]
         if tier == "thorough":
             conc = [sc for sc in scs1 if sc["scn"][0]["d"] > 0]
